@@ -618,7 +618,8 @@ package lang
 //@   loop 0 invariant[C09] copies-so-far-fresh: copy ==> (forall k int :: 0 <= k && k <= rangeindex ==> fresh(evaledExprs[k]))
 //@   loop 0 invariant protocol: evInv(e, old(e.stackTop)) && len(evaledExprs) == rangeindex + 1 && $itemErr == nil
 
-//@ func Evaluator.evalUnaryExpr [C01,C02,C05,C08,C11,C20]
+//@ func Evaluator.evalUnaryExpr [C01,C02,C05,C08,C09,C11,C20]
+//@   storesonly[C09] increments-store-through-assignment-not-through-the-old-payload: fresh
 //@   modifies valueHeap, e.stackTop, e.returnVal, e.evalDepth
 //@   ensures[C20] depth-restored: e.evalDepth == old(e.evalDepth)
 //@   requires evOK(e) && expr != nil && !$faulted
@@ -858,7 +859,7 @@ package lang
 //@   ensures[C11] fault-latched: $faulted <==> err != nil
 //@   ensures[C09,C11] scalar-parent-refuses: scalarTag(old(specObj.Value.ParentObj.Tag)) ==> err != nil
 
-//@ func copyValue [C01,C09,C11,C16]
+//@ func copyValue [C01,C09,C11,C15,C16]
 //@   requires from != nil && to != nil && !$faulted
 //@   updates $faulted
 //@   ensures[C09] returns-target: err == nil ==> result0 == to
@@ -1112,7 +1113,11 @@ package lang
 
 // C11/C12: a lexical error met by atStatementEnd (which has no error result) is kept in p.pendingErr and
 // is what the next parsing step reports; it is never cleared.
+//@ ghost $nNext int
 //@ func Parser.advance [C01,C11,C12,C13]
+//@   init $nNext = 0
+//@   after Lexer.Next: $nNext = $nNext + 1
+//@   ensures[C13] the-flag-tells-whether-a-newline-came-just-before-this-token: err == nil ==> (p.didEndStatement <==> $nNext >= 2)
 //@   requires p != nil && p.lexer != nil && lexOK(p.lexer) && (p.pendingErr == nil || isSyn(p.pendingErr))
 //@   ensures[C11,C12] a-pending-lexical-error-is-what-is-reported: old(p.pendingErr) != nil ==> err == old(p.pendingErr)
 //@   ensures[C11,C12] pending-error-kept: p.pendingErr == old(p.pendingErr)
@@ -1122,6 +1127,7 @@ package lang
 //@   ensures[C01] errkind: err == nil || isSyn(err)
 //@   ensures[C13] newline-skipped: err == nil ==> p.current != nil && p.current.Tag != Newline && (p.current.Tag != EOF ==> p.lexer.tokenStart < p.lexer.pos)
 //@   ensures strict: err != nil && old(p.pendingErr) == nil ==> p.lexer.tokenStart < p.lexer.pos
+//@   loop 0 invariant[C13] flag-so-far: $nNext >= 1 && (p.didEndStatement <==> $nNext >= 2)
 //@   loop 0 invariant skipping-newlines: p.current == &t && p.previous == old(p.current) && p.lexer == old(p.lexer) && lexOK(p.lexer) && p.rules == old(p.rules) && p.inLoop == old(p.inLoop) && p.inFunction == old(p.inFunction) && p.depth == old(p.depth) && tokOKT(t) && (t.Tag != EOF ==> p.lexer.tokenStart < p.lexer.pos)
 //@   ensures previous: err == nil ==> p.previous == old(p.current)
 //@   ensures ok: p.lexer == old(p.lexer) && lexOK(p.lexer) && p.rules == old(p.rules) && (old(p.current) != nil ==> p.current != nil) && p.inLoop == old(p.inLoop) && p.inFunction == old(p.inFunction) && p.depth == old(p.depth) && (old(p.previous) != nil && old(p.current) != nil ==> p.previous != nil)
@@ -1331,7 +1337,7 @@ package lang
 //@ func group [C01,C06]
 //@   implements parseRule.prefix
 
-//@ func unary [C01,C06,C11,C13]
+//@ func unary [C01,C05,C06,C11,C13]
 //@   implements parseRule.prefix
 //@   ensures[C11] incr-target-is-assignable: result1 == nil && (old(arg0.current.Tag) == PlusPlus || old(arg0.current.Tag) == MinusMinus) ==> assignable(as(result0, *ExprUnary).Expr)
 //@   assert[C06] operand-at-unary-level: arg1 == PrecUnary @ Parser.expressionWithPrec
